@@ -492,4 +492,20 @@ def rxnPackLen (data : List Nat) : Except PErr (RxnRoles Nat) :=
         pure (splitRoles (acs ++ [last]) r g)
     | _, _, _ => .error .overread
 
+
+/-! ## the type-agnostic public entry point -/
+
+inductive Unpached where
+  | mol (d : Decoded)
+  | rxn (r : RxnRoles Decoded)
+  deriving DecidableEq, Repr
+
+/-- `chython.unpack` / `chython.unpach` (`containers/__init__.py`): try the molecule reader; on `ValueError`
+    (only the header test raises it) try the reaction reader; every other exception propagates. -/
+def unpach (data : List Nat) : Except PErr Unpached :=
+  match decode data with
+  | .ok d => .ok (.mol d)
+  | .error .header => (rxnDecode data).map .rxn
+  | .error e => .error e
+
 end ChythonModel.Model.Pack
